@@ -43,8 +43,8 @@ theorem establish_total (c : RCfg) (adv : Bool) (o : UriOracle) (evs : List Ev) 
 when `fuel > evs.length` (the bounded-iteration invariant, restated for the outermost loops). -/
 theorem reader_loops_bounded (c : RCfg) (k : ReplyKind) (o : UriOracle) (fuel : Nat) (t : Tag) (evs : List Ev) :
     Good evs fuel (readBody c k fuel t evs) ∧ Good evs fuel (readRpcError fuel t evs) ∧
-    Good evs fuel (helloLoop o fuel t.raw none none evs) :=
-  ⟨readBody_good c k fuel t evs, errorLoop_good fuel t.raw {} evs, helloLoop_good o fuel t.raw none none evs⟩
+    Good evs fuel (helloLoop c o fuel t.raw none none evs) :=
+  ⟨readBody_good c k fuel t evs, errorLoop_good fuel t.raw {} evs, helloLoop_good c o fuel t.raw none none evs⟩
 
 theorem fromXmlReply_needs_root (c : RCfg) (k : ReplyKind) (fuel : Nat) (this : Option (Nat × Body)) (evs : List Ev)
     (v : Nat × Body) (h : fromXmlReply c k fuel this evs = .ok v) (hn : this = none) :
